@@ -1,5 +1,5 @@
 From Coq Require Import Arith NArith Bool List.
-Require Import Canon SemTk TableProto CacheProto RawProto EdaProto SignalProto Standalone BddBase BddIte BddCR BddSat BddCof BddCof2 BddCtor BddEval BddPaths BddReach BddExport BddDot Glue Hashes Machine.
+Require Import Canon SemTk TableProto CacheProto RawProto EdaProto SignalProto Standalone BddBase BddIte BddCR BddSat BddCof BddCof2 BddCtor BddEval BddPaths BddReach BddExport BddDot BddBracketText Glue Hashes Machine.
 From Coq Require Extraction ExtrOcamlBasic.
 (* The executable model handed to the correspondence harness: the register machine of Machine.v instantiated with the
    crate's hash functions (Hashes.v) and memo tables.  No Extract Constant / Extract Inductive beyond ExtrOcamlBasic. *)
@@ -12,4 +12,5 @@ Extraction "model.ml" step_cfg init_cfg
   raw_new raw_step raw_reserve raw_iter
   eda_arena eda_to_boxed eda_eval
   SignalProto.from_var SignalProto.from_input SignalProto.sig_index SignalProto.is_const SignalProto.is_input
-  SignalProto.is_var SignalProto.is_negated SignalProto.sig_var SignalProto.sig_input SignalProto.snot.
+  SignalProto.is_var SignalProto.is_negated SignalProto.sig_var SignalProto.sig_input SignalProto.snot
+  BddBracketText.flatten.
